@@ -246,6 +246,7 @@ func RunCase(c *Ctx, pi, i int) {
 	ph := &c.Prop.Phases[pi]
 	c.Rec.At(pi, i)
 	c.Case = nil
+	destDir = c.OutDir
 	r := gen.NewR(c.Seed, c.Prop.ID, pi, i)
 	defer func() {
 		if x := recover(); x != nil {
